@@ -10,16 +10,18 @@ import (
 
 	"github.com/MixinNetwork/mixin/common"
 	"github.com/MixinNetwork/mixin/crypto"
+	"github.com/MixinNetwork/mixin/storage"
 	"github.com/MixinNetwork/mixin/verifgen"
 	"github.com/MixinNetwork/mixin/verifkit"
 )
 
 type vC16Pending struct {
-	snap    *common.Snapshot
-	txs     []*common.VersionedTransaction
-	specs   map[crypto.Hash][]verifgen.OutSpec
-	kinds   []string
-	deposit *vC16DepositInfo // set when the batch holds a deposit
+	snap     *common.Snapshot
+	txs      []*common.VersionedTransaction
+	specs    map[crypto.Hash][]verifgen.OutSpec
+	kinds    []string
+	deposit  *vC16DepositInfo // set when the batch holds a deposit
+	conflict bool             // a transient write conflict was injected (and consumed) while the batch was validated
 }
 
 type vC16DepositInfo struct {
@@ -40,11 +42,12 @@ func TestVerif_C16(t *testing.T) {
 	r := verifkit.Start(t, "C16", "exploration")
 	r.SetRule("W-feed: batches of deposits/transfers/withdrawals are validated with the node's own validateSnapshotTransaction(s,false) " +
 		"(which includes the batch rules) on the current ledger, 1..4 such snapshots on different chains stay pending together, then each is certified (real CoSi) and " +
-		"delivered through the finalization path in random order; a panic or error out of the snapshot write after successful validation is the refuting event. " +
-		"Deposits are sized near the BTC/ETH capacities and include first deposits of unknown assets; two wide batches (2 x 64 outputs x 64 keys, 3 x 256 outputs x 250 keys) are validated together and finalized. non-trivial = distinct validated snapshots that were delivered")
+		"delivered through the finalization handler (other chains) or added the way the proposer does (own chain, no second validation) in random order; a panic or error out of the snapshot write after successful validation is the refuting event. " +
+		"A quarter of the validations run with an injected transient write conflict (badger.ErrConflict once or twice on WriteTransaction / input or key locking). Deposits are sized near the BTC/ETH capacities and include first deposits of unknown assets; two wide batches (2 x 64 outputs x 64 keys, 3 x 256 outputs x 250 keys) are validated together and finalized. non-trivial = distinct validated snapshots that were delivered")
 	r.Assume("the single replica plays one honest signer; the certificate is produced with the real signer keys of the test network")
 	rng := r.Rand()
-	f := verifNewFeed(t, fmt.Sprintf("c16-%d", r.Seed), 7, rng, t.TempDir(), nil)
+	var px *verifProxy
+	f := verifNewFeed(t, fmt.Sprintf("c16-%d", r.Seed), 7, rng, t.TempDir(), func(bs *storage.BadgerStore) storage.Store { px = newVerifProxy(bs); return px })
 	defer f.stop()
 	w := verifgen.NewWallet(f.net.Label, rng, &f.net.Custodian, 5)
 	assets := verifgen.Assets()
@@ -102,6 +105,15 @@ func TestVerif_C16(t *testing.T) {
 		// 1. build and locally validate 1..4 pending snapshots on distinct chains
 		k := 1 + rng.Intn(4)
 		perm := rng.Perm(len(f.net.NodeIds))[:k]
+		if rng.Intn(2) == 0 { // the replica's own chain takes part in half of the rounds (proposer path)
+			own := false
+			for _, ci := range perm {
+				own = own || ci == f.self
+			}
+			if !own {
+				perm[0] = f.self
+			}
+		}
 		var pend []*vC16Pending
 		var roundSubmits []crypto.Hash // submissions validated in this round, still pending
 		sameAsset := rng.Intn(3) == 0
@@ -234,11 +246,32 @@ func TestVerif_C16(t *testing.T) {
 				p.deposit.balanceAtVal = verifgen.UnitsOf(bal)
 				p.deposit.knownAtVal = old != nil
 			}
+			// transient write conflicts during validation (another chain's commit touched a key this one had read):
+			// the node retries them, and what it then reports as validated must be finalizable
+			if rng.Intn(4) == 0 || chainId == f.node.IdForNetwork && rng.Intn(2) == 0 {
+				m := []string{"WriteTransaction", "WriteTransaction", "WriteTransaction", "LockUTXOs", "LockDepositInput", "LockGhostKeys"}[rng.Intn(6)]
+				px.mu.Lock()
+				px.conflicts = map[string]int{m: 1 + rng.Intn(2)}
+				px.mu.Unlock()
+				r.Count("validations_with_injected_conflict_"+m, 1)
+			}
 			var verr error
 			var missing []crypto.Hash
 			panicked, pv, stack := verifkit.Guard(func() {
 				_, missing, verr = f.node.validateSnapshotTransaction(s, false)
 			})
+			px.mu.Lock()
+			left := 0
+			for _, n := range px.conflicts {
+				left += n
+			}
+			consumed := px.conflicts != nil && left == 0
+			px.conflicts = nil
+			px.mu.Unlock()
+			if consumed {
+				r.Count("injected_conflicts_consumed", 1)
+				p.conflict = true
+			}
 			r.Eval()
 			if panicked {
 				r.Count("validation_panics_(C05_territory)", 1)
@@ -268,7 +301,8 @@ func TestVerif_C16(t *testing.T) {
 		rng.Shuffle(len(pend), func(i, j int) { pend[i], pend[j] = pend[j], pend[i] })
 		for _, p := range pend {
 			// the round state may have moved for this chain? (distinct chains: it has not)
-			if _, err := f.sign(p.snap, rng.Intn(2)); err != nil {
+			signers, err := f.sign(p.snap, rng.Intn(2))
+			if err != nil {
 				r.Count("sign_errors", 1)
 				continue
 			}
@@ -277,9 +311,20 @@ func TestVerif_C16(t *testing.T) {
 			for _, kd := range p.kinds {
 				r.Count("delivered_kind_"+kd, 1)
 			}
-			d := f.deliver(p.snap, p.txs)
-			if !d.Finalized && !d.Panicked && d.Err == nil { // e.g. references had to be updated first: deliver again
+			// the replica's own chain finalizes the way a proposer does (straight into the round, no second
+			// validation); snapshots of other chains arrive through the finalization handler
+			var d verifDelivery
+			leader := false
+			if p.snap.NodeId == f.node.IdForNetwork {
+				d, leader = f.finalizeAsLeader(p.snap, signers, p.txs)
+			}
+			if leader {
+				r.Count("finalized_on_the_proposer_path", 1)
+			} else {
 				d = f.deliver(p.snap, p.txs)
+				if !d.Finalized && !d.Panicked && d.Err == nil { // e.g. references had to be updated first: deliver again
+					d = f.deliver(p.snap, p.txs)
+				}
 			}
 			if d.Panicked || d.Err != nil {
 				site := "error"
@@ -289,6 +334,9 @@ func TestVerif_C16(t *testing.T) {
 					msg = fmt.Sprint(d.PanicVal)
 				}
 				class := "batch:" + strings.Join(vC16Uniq(p.kinds), "+")
+				if p.conflict {
+					class = "after-transient-write-conflict-during-validation"
+				}
 				if p.deposit != nil && strings.Contains(msg, "invalid asset info") {
 					class = "pending-first-deposits-of-one-asset-with-different-chain-data"
 				}
